@@ -160,34 +160,7 @@ def run(ctx):
                             '(SQL: false), `select null or true` returns NULL (SQL: true)')
 
     # R10: validity bitmaps are word-aligned
-    R10 = 'C14-R10'
-    ctx.rule(R10, 'validity bitmaps start at bit 0 of their first word: BitVecExt::and / or / not_then_and (and with them binary_op, '
-                  'select_op, clear_null, the AND/OR kernels) combine bitmaps word by word through as_raw_slice; therefore no BitVec is '
-                  'made by copying a sub-range of another one (BitSlice::to_bitvec / to_owned / BitVec::from_bitslice on `bits[a..b]`, '
-                  '`bits[a..]`), which keeps the head offset of the source')
-    raw = [c for b_ in prog.bodies.values() for c in b_.calls if re.search(r'BitVec::<.*>::as_raw_(mut_)?slice$', c.name or '')]
-    if ctx.anchor(R10, 'raw-word bitmap kernels (as_raw_slice)', raw):
-        ctx.floor(R10, len(raw), 6, 'as_raw_slice call sites')
-        n_copy = 0
-        for b_ in prog.bodies.values():
-            for c in b_.calls:
-                if not re.search(r'BitSlice::<.*>::to_bitvec$|BitVec::<.*>::from_bitslice$|ToOwned::to_owned$', c.name or ''):
-                    continue
-                if 'to_owned' in (c.name or '') and 'BitSlice' not in ' '.join(c.t.get('gargs', []) + [c.res or '']):
-                    continue
-                n_copy += 1
-                if not (c.args and c.args[0]['k'] != 'const'):
-                    continue
-                o = origin_locals(b_, c.args[0]['pl']['l'], depth=8)
-                sub = [x for x in b_.calls if re.search(r'ops::Index::index$|ops::IndexMut::index_mut$', x.fn or '') and x.dest['l'] in o
-                       and len(x.args) > 1 and x.args[1]['k'] != 'const'
-                       and re.search(r'^std::ops::(Range|RangeFrom|RangeInclusive)<', b_.local_ty(x.args[1]['pl']['l']))]
-                ctx.ob(R10, f'{b_.root}·copies-a-sub-range-of-a-bitmap', not sub,
-                       f'{b_.name}: {c.name} at block {c.bb} copies `bits[range]` with a start that need not be a multiple of the word size',
-                       [site(b_, c.bb)],
-                       what=f'{b_.root} builds a bitmap by copying a sub-range of another one: the copy keeps the source\'s bit offset, '
-                            'and the word-wise validity kernels then shift every row\'s NULL flag')
-        ctx.extra['bitmap_copy_sites'] = n_copy
+    aligned_bitmaps_rule(ctx, prog, 'C14-R10')
 
     # R11: aggregates are not constants
     R11 = 'C14-R11'
@@ -255,6 +228,7 @@ def run(ctx):
     clear_null_rule(ctx, prog, 'C14-R6')
     c14_types.run(ctx, prog, 'C14-R13')
     c14_types.evaluator_passes_nothing_through(ctx, prog, 'C14-R14')
+    c14_types.datavalue_order_users(ctx, prog, 'C14-R15')
 
     R7 = 'C14-R7'
     ctx.rule(R7, 'raw-slot kernels are infallible: a function that iterates raw slots (raw_iter) applies no fallible per-slot function '
@@ -394,3 +368,34 @@ def clear_null_rule(ctx, prog, R6):
                    f'{r}: {len(sites)} boolean result(s) built by a kernel without clear_null', [site(b, bb) for b, bb in sites[:3]],
                    what=f'ArrayImpl::{fn} builds a boolean array whose raw bits under NULL are not cleared: WHERE / JOIN ON read the '
                         f'raw bit, so a NULL predicate counts as TRUE')
+
+
+def aligned_bitmaps_rule(ctx, prog, R10):
+    """C14-R10 = C02-R8: validity bitmaps are word-aligned"""
+    ctx.rule(R10, 'validity bitmaps start at bit 0 of their first word: BitVecExt::and / or / not_then_and (and with them binary_op, '
+                  'select_op, clear_null, the AND/OR kernels) combine bitmaps word by word through as_raw_slice; therefore no BitVec is '
+                  'made by copying a sub-range of another one (BitSlice::to_bitvec / to_owned / BitVec::from_bitslice on `bits[a..b]`, '
+                  '`bits[a..]`), which keeps the head offset of the source')
+    raw = [c for b_ in prog.bodies.values() for c in b_.calls if re.search(r'BitVec::<.*>::as_raw_(mut_)?slice$', c.name or '')]
+    if ctx.anchor(R10, 'raw-word bitmap kernels (as_raw_slice)', raw):
+        ctx.floor(R10, len(raw), 6, 'as_raw_slice call sites')
+        n_copy = 0
+        for b_ in prog.bodies.values():
+            for c in b_.calls:
+                if not re.search(r'BitSlice::<.*>::to_bitvec$|BitVec::<.*>::from_bitslice$|ToOwned::to_owned$', c.name or ''):
+                    continue
+                if 'to_owned' in (c.name or '') and 'BitSlice' not in ' '.join(c.t.get('gargs', []) + [c.res or '']):
+                    continue
+                n_copy += 1
+                if not (c.args and c.args[0]['k'] != 'const'):
+                    continue
+                o = origin_locals(b_, c.args[0]['pl']['l'], depth=8)
+                sub = [x for x in b_.calls if re.search(r'ops::Index::index$|ops::IndexMut::index_mut$', x.fn or '') and x.dest['l'] in o
+                       and len(x.args) > 1 and x.args[1]['k'] != 'const'
+                       and re.search(r'^std::ops::(Range|RangeFrom|RangeInclusive)<', b_.local_ty(x.args[1]['pl']['l']))]
+                ctx.ob(R10, f'{b_.root}·copies-a-sub-range-of-a-bitmap', not sub,
+                       f'{b_.name}: {c.name} at block {c.bb} copies `bits[range]` with a start that need not be a multiple of the word size',
+                       [site(b_, c.bb)],
+                       what=f'{b_.root} builds a bitmap by copying a sub-range of another one: the copy keeps the source\'s bit offset, '
+                            'and the word-wise validity kernels then shift every row\'s NULL flag')
+        ctx.extra['bitmap_copy_sites'] = n_copy
